@@ -17,10 +17,13 @@ EXPLANATION = (
     "; the implication handed to the rules is the block's own under every activation method (P2); Consequent.modify leaves the rule's conclusions as they were"
 )
 ASSUMPTIONS = ["numpy.nan_to_num keyword semantics"]
-FLOORS = {"L1": 1, "M-sem": 4, "P4": 3, "T2": 4, "T2-own": 1, "O9": 2, "LD": 4}
+FLOORS = {"H8": 2, "L1": 1, "M-sem": 4, "P4": 3, "T2": 4, "T2-own": 1, "O9": 2, "LD": 4}
 
 
 def run(check: Check) -> None:
+    from .common import memoisation_rule
+
+    memoisation_rule(check)  # H8: the hedges a conclusion is modified with are the ones registered when the rule is loaded - no lookup answers from a cache
     wiring.p4_who_modifies(check)
     from .consequent_sem import consequent_semantics
 
